@@ -1,7 +1,7 @@
 (* C13 — the boolean monitors of Model/C13_ShapeCheck.v (codes 30..33) applied to the DAG the real importer built:
    what an accepted observation satisfies (soundness), and that the model's own DAG is accepted (completeness, = the
    theorems of Proofs/C13_Importer.v in boolean form). *)
-From V Require Import Base.Common Model.C13_Importer Model.C13_ShapeCheck Proofs.C13_Importer.
+From V Require Import Base.Common Model.C13_Importer Model.C13_ShapeCheck Proofs.C13_Importer Proofs.C13_Trickle.
 From Coq Require Import FSets.FMapPositive.
 Open Scope N_scope.
 
@@ -106,3 +106,58 @@ Proof.
     + apply in_posts in Hn as (l & Hin & Hn). specialize (Hch l Hin n Hn). destruct n as [|[|]]; auto. destruct Hch. congruence.
     + destruct ch; [congruence|reflexivity].
 Qed.
+
+(* ---- 32 for trickle: the boolean monitor decides tshape ---- *)
+Lemma take_drop_while {A} (p : A -> bool) l : take_while p l ++ drop_while p l = l.
+Proof. induction l as [|x r IH]; [reflexivity|]. cbn. destruct (p x); cbn; [rewrite IH|]; reflexivity. Qed.
+Lemma take_while_all {A} (p : A -> bool) l : Forall (fun x => p x = true) (take_while p l).
+Proof. induction l as [|x r IH]; cbn; [constructor|]. destruct (p x) eqn:E; constructor; auto. Qed.
+Lemma drop_while_head {A} (p : A -> bool) l x r : drop_while p l = x :: r -> p x = false.
+Proof. induction l as [|y l' IH]; cbn; [discriminate|]. destruct (p y) eqn:E; [exact IH|]. intros H. injection H as <- _. exact E. Qed.
+Lemma take_drop_unique {A} (p : A -> bool) lv sub : Forall (fun x => p x = true) lv ->
+  (forall x r, sub = x :: r -> p x = false) -> take_while p (lv ++ sub) = lv /\ drop_while p (lv ++ sub) = sub.
+Proof. intros Hl Hs. induction Hl as [|x r Hx _ IH]; cbn [app].
+  - destruct sub as [|y r]; [split; reflexivity|]. cbn. rewrite (Hs y r eq_refl). split; reflexivity.
+  - cbn. rewrite Hx. destruct IH as [-> ->]. split; reflexivity. Qed.
+
+Lemma indexed_forallb {A} (g : nat * A -> bool) l : forall k,
+  forallb g (indexed k l) = true <-> forall i c, nth_error l i = Some c -> g ((k + i)%nat, c) = true.
+Proof. induction l as [|x r IH]; intros k; cbn [indexed forallb].
+  - split; [intros _ [|i] c H; discriminate|reflexivity].
+  - rewrite andb_true_iff, IH. split.
+    + intros [H1 H2] [|i] c H; cbn in H; [injection H as <-; rewrite Nat.add_0_r; exact H1|].
+      replace (k + S i)%nat with (S k + i)%nat by lia. apply H2. exact H.
+    + intros H. split; [specialize (H O x eq_refl); rewrite Nat.add_0_r in H; exact H|].
+      intros i c Hn. replace (S k + i)%nat with (k + S i)%nat by lia. apply H. exact Hn. Qed.
+
+Lemma is_leafb_iff t : is_leafb t = true <-> is_leaf t.
+Proof. destruct t; cbn; split; auto; discriminate. Qed.
+Lemma tshape_node fuel ml md t : tshape fuel ml md t -> is_leafb t = false.
+Proof. destruct fuel; [intros []|]. destruct t; [intros []|reflexivity]. Qed.
+
+Lemma trickle_okb_iff ml : forall fuel md t, trickle_okb fuel ml md t = true <-> tshape fuel ml md t.
+Proof.
+  induction fuel as [|f IH]; intros md t; cbn [trickle_okb tshape]; [split; [discriminate|tauto]|].
+  destruct t as [d|ch]; [split; [discriminate|tauto]|].
+  set (kids := map fst ch). rewrite !andb_true_iff, (indexed_forallb _ _ O). split.
+  - intros [[H1 H2] H3]. exists (take_while is_leafb kids), (drop_while is_leafb kids).
+    split; [symmetry; apply take_drop_while|].
+    split; [eapply Forall_impl; [|apply take_while_all]; intros x; apply is_leafb_iff|].
+    split; [apply N.leb_le; exact H1|]. split.
+    + intros Hs. destruct (drop_while is_leafb kids); [congruence|]. apply N.eqb_eq. exact H2.
+    + intros i c Hn. specialize (H3 i c Hn). cbn [Nat.add fst snd] in H3. apply andb_true_iff in H3 as [Ha Hb].
+      split; [destruct md as [m|]; [apply Nat.ltb_lt; exact Ha|exact I]|apply IH; exact Hb].
+  - intros (lv & sub & E & Hlv & Hle & Hfull & Hsub).
+    destruct (take_drop_unique is_leafb lv sub) as [Et Ed].
+    { eapply Forall_impl; [|exact Hlv]. intros x. apply is_leafb_iff. }
+    { intros x r ->. destruct (Hsub O x eq_refl) as [_ H]. eapply tshape_node; eauto. }
+    rewrite E, Et, Ed. split; [split|].
+    + apply N.leb_le. exact Hle.
+    + destruct sub; [reflexivity|]. apply N.eqb_eq, Hfull. congruence.
+    + intros i c Hn. destruct (Hsub i c Hn) as [Ha Hb]. cbn [Nat.add fst snd]. apply andb_true_iff.
+      split; [destruct md as [m|]; [apply Nat.ltb_lt; exact Ha|reflexivity]|apply IH; exact Hb].
+Qed.
+
+Lemma trickle_passes_shape ml chunks : 1 <= ml ->
+  trickle_okb (S (length chunks)) ml None (layout_tree (trickle_layout ml chunks)) = true.
+Proof. intros Hml. apply trickle_okb_iff, trickle_layout_shape. exact Hml. Qed.
